@@ -32,6 +32,8 @@ type Task struct {
 	sleep  time.Duration // requested fake-clock advance before the next release
 	prio   int
 	runs   int
+	held   int             // modelled locks held: no yields inside a critical section
+	heldW  map[uintptr]int // write locks this task took, by lock identity
 }
 
 // Actor is a simulator-owned action executed by the scheduler goroutine itself
@@ -197,6 +199,14 @@ func (s *Sim) hook(site string) {
 		s.mu.Unlock()
 		runtime.Goexit()
 	}
+	if t.held > 0 && s.pending == nil {
+		// Inside a critical section the task runs on to its unlock: nobody else can
+		// enter anyway, and a task parked with a lock held would make a goroutine that
+		// is woken inside sync.Cond.Wait block on the real mutex, which the simulator
+		// cannot see. Races BETWEEN critical sections are still scheduled.
+		s.mu.Unlock()
+		return
+	}
 	t.site = site
 	s.arrived = append(s.arrived, t)
 	s.mu.Unlock()
@@ -282,11 +292,18 @@ func (s *Sim) lockHook(site string, lock interface{}, write bool, acquire bool) 
 	}
 	if !acquire {
 		if write {
+			// the task's own bookkeeping decides: a goroutine woken inside
+			// sync.Cond.Wait may already have taken the lock over in the model
+			if t.heldW[id] > 0 {
+				t.heldW[id]--
+				t.held--
+			}
 			if ls.writer == t {
 				ls.writer = nil
 			}
 		} else if ls.readers[t] > 0 {
 			ls.readers[t]--
+			t.held--
 			if ls.readers[t] == 0 {
 				delete(ls.readers, t)
 			}
@@ -302,9 +319,14 @@ func (s *Sim) lockHook(site string, lock interface{}, write bool, acquire bool) 
 		if free {
 			if write {
 				ls.writer = t
+				if t.heldW == nil {
+					t.heldW = map[uintptr]int{}
+				}
+				t.heldW[id]++
 			} else {
 				ls.readers[t]++
 			}
+			t.held++
 			s.mu.Unlock()
 			return
 		}
@@ -322,6 +344,66 @@ func (s *Sim) lockHook(site string, lock interface{}, write bool, acquire bool) 
 		}
 		s.mu.Lock()
 	}
+}
+
+var condType = reflect.TypeOf(sync.Cond{})
+
+// condHook: a task entering sync.Cond.Wait gives up the condition's lock in
+// the model (the real Wait unlocks the real mutex) and holds it again when
+// Wait has returned (the real Wait has re-locked it by then).
+func (s *Sim) condHook(site string, c interface{}, before bool) {
+	g := goid()
+	if g == s.rootG {
+		return
+	}
+	v := reflect.ValueOf(c)
+	for v.Kind() == reflect.Ptr && !v.IsNil() {
+		v = v.Elem()
+	}
+	if v.Kind() != reflect.Struct || v.Type() != condType {
+		return // a WaitGroup or something else with a Wait method
+	}
+	l := v.FieldByName("L")
+	if !l.IsValid() || l.IsNil() {
+		return
+	}
+	lv := l.Elem()
+	if lv.Kind() != reflect.Ptr {
+		return
+	}
+	id := lv.Pointer()
+	s.mu.Lock()
+	defer s.mu.Unlock()
+	t := s.tasks[g]
+	if t == nil {
+		return
+	}
+	if s.locks == nil {
+		s.locks = map[uintptr]*lockState{}
+	}
+	ls := s.locks[id]
+	if ls == nil {
+		ls = &lockState{readers: map[*Task]int{}}
+		s.locks[id] = ls
+	}
+	if t.heldW == nil {
+		t.heldW = map[uintptr]int{}
+	}
+	if before {
+		if t.heldW[id] > 0 {
+			t.heldW[id]--
+			t.held--
+		}
+		if ls.writer == t {
+			ls.writer = nil
+		}
+		s.arrived = append(s.arrived, ls.waiters...)
+		ls.waiters = nil
+		return
+	}
+	ls.writer = t
+	t.heldW[id]++
+	t.held++
 }
 
 // chanHook keeps tasks from blocking for real on a package-level buffered
@@ -461,8 +543,9 @@ func (s *Sim) Run() {
 	simrt.PanicHook = s.panicHook
 	simrt.LockHook = s.lockHook
 	simrt.ChanHook = s.chanHook
+	simrt.CondHook = s.condHook
 	defer func() {
-		simrt.Hook, simrt.SpawnHook, simrt.PanicHook, simrt.LockHook, simrt.ChanHook = nil, nil, nil, nil, nil
+		simrt.Hook, simrt.SpawnHook, simrt.PanicHook, simrt.LockHook, simrt.ChanHook, simrt.CondHook = nil, nil, nil, nil, nil, nil
 	}()
 	s.strat.init(s.T)
 	s.Strategy = s.strat.name()
